@@ -12,7 +12,10 @@ import (
 
 	"github.com/Trendyol/go-dcp/config"
 	"github.com/Trendyol/go-dcp/couchbase"
+	"github.com/Trendyol/go-dcp/stream"
+	"github.com/Trendyol/go-dcp/tracing"
 	"github.com/couchbase/gocbcore/v10"
+	"github.com/couchbase/gocbcore/v10/memd"
 
 	"verif/simnode"
 )
@@ -90,4 +93,47 @@ func (e *lbEnv) reset() {
 	// a fresh config + client wrapper per case (the agents are shared)
 	e.cfg = lbConfig()
 	e.client = couchbase.VerifNewClient(e.cfg, e.agent, e.agent, e.dcp)
+}
+
+// ---- small aliases so that the property files read naturally ----
+
+type (
+	simnodeEntry  = simnode.Entry
+	simnodeAction = simnode.Action
+)
+
+const (
+	simnodeStatus   = simnode.Status
+	simnodeSilent   = simnode.Silent
+	simnodeDrop     = simnode.Drop
+	simnodeDelay    = simnode.Delay
+	cmdObserveSeqNo = memd.CmdObserveSeqNo
+	statusTmpFail   = memd.StatusTmpFail
+)
+
+func simnodeNew(servers, numVb, replicas int) *simnode.Cluster {
+	return simnode.New(servers, numVb, replicas)
+}
+
+func simnodeDoc(seq uint64) simnode.DocEvent {
+	return simnode.DocEvent{Seq: seq, Rev: seq, Cas: (1_700_000_000 + seq) * 1_000_000_000, Key: []byte(fmt.Sprintf("k%d", seq)), Value: []byte(`{}`)}
+}
+
+func newLBFromCluster(c *simnode.Cluster) *lbEnv {
+	agent, err := c.NewAgent()
+	if err != nil {
+		panic(fmt.Sprintf("harness: KV agent bootstrap on simnode failed: %v", err))
+	}
+	dcp, err := c.NewDcpAgent("verif-dcp")
+	if err != nil {
+		panic(fmt.Sprintf("harness: DCP agent bootstrap on simnode failed: %v", err))
+	}
+	cfg := lbConfig()
+	return &lbEnv{c: c, agent: agent, dcp: dcp, cfg: cfg, client: couchbase.VerifNewClient(cfg, agent, agent, dcp)}
+}
+
+// newRealStream: the real stream on the real client of the environment; store/consumer/discovery are recorders.
+func newRealStream(e *lbEnv, fm *fakeMeta, cons *fakeConsumer, disc *fakeDiscovery, stopCh chan struct{}) stream.Stream {
+	return stream.NewStream(e.client, fm, e.cfg, &couchbase.Version{Major: 7}, &couchbase.BucketInfo{BucketType: "membase"},
+		disc, cons, map[uint32]string{}, stopCh, &fakeHandler{}, tracing.NewTracerComponent())
 }
